@@ -8,4 +8,6 @@ MCSpec == MCInit /\ [][Next]_vars
 (* one scheduler death at most, to keep the model small *)
 OneDeath == Cardinality({p \in Procs : ~alive[p]}) <= 1
 NoDeath == \A p \in Procs : alive[p]
+(* bounded exploration of the three-job workload (the lost notification of the other order shows at depth 23) *)
+NoDeath26 == NoDeath /\ TLCGet("level") <= 26
 =============================================================================
